@@ -233,6 +233,9 @@ def streams_for(prop, seed, tier, boost=1):
         add('table-big', big_table_stream())
         add('table-long-history', genmod.big_history_table_stream(4300))
         add('enc-failing', genmod.enc_fail_stream(G('ef'), n=15 * k))
+        add('enc-big-tables', genmod.big_table_encoder_stream(G('bt')))
+        add('high-index', genmod.high_index_limit_stream())
+        add('dec-churn', genmod.dec_churn_stream(G('ch'), n=8 * k))
         add('table-debuglog', genmod.with_debug_log(G('table2').table_stream(n_tables=6 * k)))
         add('dec-update-runs', genmod.dec_updates_stream(G('du'), n=15 * k))
         add('dec-extra', genmod.dec_extra_catalogue(G('dx')))
@@ -250,6 +253,9 @@ def streams_for(prop, seed, tier, boost=1):
         add('dec-mixed', G('dec2').dec_stream(n_conn=20 * k, mal=0.3, start_id=3000))
         add('dec-update-runs', genmod.dec_updates_stream(G('du'), n=20 * k))
         add('dec-ambiguity', genmod.ambiguity_stream(G('am'), n_random=50 * k))
+        add('dec-churn', genmod.dec_churn_stream(G('ch'), n=10 * k))
+        add('table-big', big_table_stream())
+        add('high-index', genmod.high_index_limit_stream())
         add('dec-setters', genmod.dec_setter_stream(G('ds'), n=15 * k))
         add('dec-extra', genmod.dec_extra_catalogue(G('dx')))
     elif prop in ('C04', 'C05'):
@@ -260,6 +266,9 @@ def streams_for(prop, seed, tier, boost=1):
         add('dec-setters', genmod.dec_setter_stream(G('ds'), n=20 * k))
         add('dec-update-runs', genmod.dec_updates_stream(G('du'), n=10 * k))
         add('dec-ambiguity', genmod.ambiguity_stream(G('am'), n_random=20 * k))
+        add('dec-churn', genmod.dec_churn_stream(G('ch'), n=8 * k))
+        add('table-big', big_table_stream())
+        add('high-index', genmod.high_index_limit_stream())
         add('dec-extra', genmod.dec_extra_catalogue(G('dx')))
         add('hdec-in-block', ['dnew 1'] + ['ddec 1 1 ' + genmod.hx(bytes([0x00, 0x80 | (len(o.split()[1]) // 2)]) + bytes.fromhex(o.split()[1]) + b'\x00')
                                           for o in genmod.huff_transition_catalogue() if o.split()[1] != '-' and len(o.split()[1]) // 2 < 127][::(1 if (T or boost > 1) else 7)])
@@ -270,6 +279,8 @@ def streams_for(prop, seed, tier, boost=1):
         add('dec-limits', G('dec').dec_stream(n_conn=80 * k, mal=0.15))
         add('dec-bounds', bounds_stream(G('b'), 40 * k))
         add('conn-big-binary', genmod.big_binary_conn_stream(G('bb')))
+        add('high-index', genmod.high_index_limit_stream())
+        add('dec-churn', genmod.dec_churn_stream(G('ch'), n=6 * k))
         add('dec-extra', genmod.dec_extra_catalogue(G('dx')))
         add('dec-update-runs', genmod.dec_updates_stream(G('du'), n=10 * k))
         add('dec-setters', genmod.dec_setter_stream(G('ds'), n=8 * k))
